@@ -128,6 +128,17 @@ Example C19_alias_diverges_at_add_import :
   = AddDiverges.
 Proof. vm_compute. reflexivity. Qed.
 
+(* the same family without the replacer: a directory whose name is the concatenation of another
+   path's last two components (found by the exhaustive L1 triples): one/client wants the alias
+   oneclient, which package a/oneclient holds, and from level 2 on the two paths have the same
+   unique name *)
+Example C19_alias_diverges_concatenation :
+  add_import (mkRcfg "example.com/x/src" [])
+             [mkImp "a/one/client" "client" ""; mkImp "a/oneclient" "oneclient" ""]
+             (mkPkg "a/two/client" "client")
+  = AddDiverges.
+Proof. vm_compute. reflexivity. Qed.
+
 (* ---- errors name the offending type ---- *)
 
 Theorem C19_error_not_found i cfg r np rest name mock :
